@@ -359,3 +359,27 @@ func Verify(tgt Endpoint, ex Expect) []string {
 	sort.Strings(diff)
 	return diff
 }
+
+// FallbackListed returns the digests listed by the referrers fallback tag of a subject at the endpoint
+// (nil, false if the tag does not exist or cannot be read).
+func FallbackListed(e Endpoint, subject string) (map[string]bool, bool) {
+	d, ok := e.Tag(FallbackTag(subject))
+	if !ok {
+		return nil, false
+	}
+	raw, _, ok := e.Store().Manifest(d)
+	if !ok {
+		return nil, false
+	}
+	var idx struct {
+		Manifests []la.Desc `json:"manifests"`
+	}
+	if err := json.Unmarshal(raw, &idx); err != nil {
+		return nil, false
+	}
+	out := map[string]bool{}
+	for _, m := range idx.Manifests {
+		out[m.Digest] = true
+	}
+	return out, true
+}
